@@ -22,6 +22,12 @@ BUILT={
  "C09":("exploration","runtime monitor: statement-derived oracle (pointer-identity prefixes, TC rule, fit rule, first-dropped rule) over sizes including the exact packed length of every record prefix +-1",
         "Each (message,size) pair is judged by an oracle written from the property, using Pack only to measure lengths.",
         "uses the library's Pack to measure lengths of candidate prefixes"),
+ "C10":("exploration","runtime monitor: independent DNSSEC verifier (own RFC 4034/6840 canonical form, own key decoding, Go crypto) as oracle for Sign output, harness-made signatures, irrelevant metamorphic variants and ~60 single-field/bit alterations per RRset",
+        "Both directions: what Sign emits must verify independently; what Verify accepts must be acceptable to the independent verifier; valid canonical signatures made outside the library must be accepted.",
+        "keys are generated per run with crypto/rand; the model's s.6.2 type list follows RFC 6840 s.5.1"),
+ "C11":("exploration","runtime monitor: independent RFC 8945 digest as oracle; explicit-now hook for the fudge window; exhaustive single-bit flips of short signed messages, field/context/structure alterations, envelope chains made by library and harness",
+        "Soundness is decided per altered octet string by recomputing the HMAC independently; the window is decided at t, t+-fudge, t+-(fudge+1) without reading the wall clock.",
+        "uses the verif-tagged accessor VerifTsigVerify(now); TSIG RR class on the wire not part of the acceptance condition"),
  "C12":("fault_enumeration","runtime monitor: fault enumeration over simulated streams (every split point, EOF/error at every offset, oversize writes, scripted stale/foreign datagram replies) + concurrent unique-request workload against real loopback servers with scribbled recycled buffers, offline no-mixing/exactly-once check, race detector",
         "Framing and ID handling are enumerated over deterministic in-memory transports; cross-talk is decided offline over the merged client/handler log of uniquely tagged requests; the poolPut hook scribbles every recycled UDP buffer so aliasing is seen deterministically.",
         "in-memory transports model short reads, not kernel behaviour; 20 s watchdog decides 'hang'"),
@@ -37,6 +43,12 @@ BUILT={
  "C16":("exploration","runtime monitor: object-graph address-range walker (copy vs original, decoded vs input buffer), deep snapshots around read-only operations, Go race detector on concurrent read-only use",
         "Aliasing is decided from the actual addresses of every reachable slice/pointer/map, not from sampled writes; read-only operations are bracketed by deep snapshots; concurrent use runs under -race.",
         "reflect-based walker sees exported and unexported fields; strings exempt for Copy"),
+ "C17":("exploration","runtime monitor: closed-form RFC oracles (key tag App. B incl. constructed double-carry sums, DS digests, NSEC3 hash, circular interval membership, RFC 1982 windows) over boundary-biased inputs; key export/re-import checked with library and independent verification",
+        "Every sub-claim of the statement has its own reference function; interval shapes and hash positions are enumerated over all pairs of sampled hashes.",
+        "digest type 5 (library extension) not exercised; ValidityPeriod findings beyond 2^32 are recorded as known"),
+ "C18":("fault_enumeration","runtime monitor: independent RFC 2931 verification as oracle; every single-bit flip of message part and SIG RDATA and every truncation point of short signed messages, other key/signer, windows >= 1 h off the real clock, structure-aware mutations; panics attributed per isolated worker",
+        "Sign must succeed on every packable message (incl. heavily compressible ones and 254..512 additional records); Verify==nil implies independent acceptance; truncations and mutations must yield errors, never panics.",
+        "SIG.Verify reads the wall clock: boundary second not decided; SIG RR header bits outside the statement"),
  "C19":("exploration","runtime monitor: bounded-exhaustive enumeration of names over an 8-atom alphabet in canonical presentation form vs the model's wire label sequence; all pairs in sampled blocks",
         "All names up to 6 (quick) / 7 (thorough) atoms incl. escaped dots/backslashes/non-printables, FQDN and relative spelling, plus random long names and pairs.",
         "names restricted to the library's canonical presentation form"),
